@@ -383,11 +383,16 @@ func (wd *vC02World) candidate() *vC02Cand {
 	msg := ver.PayloadHash()
 	i := rng.Intn(len(ins))
 	m := ver.SignaturesMap[i]
-	anyKey := func() (uint16, bool) {
+	anyKey := func() (uint16, bool) { // seeded choice (map iteration order is not deterministic)
+		ks := make([]int, 0, len(m))
 		for k := range m {
-			return k, true
+			ks = append(ks, int(k))
 		}
-		return 0, false
+		if len(ks) == 0 {
+			return 0, false
+		}
+		sort.Ints(ks)
+		return uint16(ks[rng.Intn(len(ks))]), true
 	}
 	switch rng.Intn(11) {
 	case 0: // a genuine signature over this payload, made by a key that is not the indexed one
@@ -1042,7 +1047,11 @@ func TestVerif_C02(t *testing.T) {
 			continue
 		}
 		if r.SampleCount() < 4 && deep {
-			r.Sample(map[string]any{"mode": c.mode, "forgery": c.forge, "inputs": len(c.ins), "keys": len(c.ins[0].Keys), "threshold": c.ins[0].Threshold(), "signers": c.signers, "accepted": true})
+			hexTx := fmt.Sprintf("%x", enc)
+			if len(hexTx) > 600 {
+				hexTx = hexTx[:600] + "..."
+			}
+			r.Sample(map[string]any{"mode": c.mode, "forgery": c.forge, "inputs": len(c.ins), "keys": len(c.ins[0].Keys), "threshold": c.ins[0].Threshold(), "signers": c.signers, "accepted": true, "tx": hexTx})
 		}
 		if enc != nil && tampers < tamperBudget && (accepted%3 == 1 || len(enc) < 500) {
 			tampers += wd.tamper(parsed, enc, ts, tamperBudget-tampers)
